@@ -6,7 +6,8 @@
 (*                                                                         *)
 (*  type checker   tcs[t]  : function  type name -> predicate id           *)
 (*  class          cls[c]  : [kw : set of feature tags, tc : t,            *)
-(*                            idkw : "id" | "$id", meta : metaschema id]   *)
+(*                            idkw : "id" | "$id", meta : metaschema id,   *)
+(*                            vt : the draft whose keyword table it has]   *)
 (*  validator obj  vals[v] : [c : class, tc : t, known : set of metaschema *)
 (*                            ids]  (tc: instance level, the deprecated    *)
 (*                            `types` argument; known: the registered      *)
@@ -60,7 +61,10 @@ CheckSchemaBeh(c, tc) ==
   [title  |-> IF "string" \notin DOMAIN tc THEN "undefined" ELSE IF Pred(tc["string"], "one") THEN "accept" ELSE "reject",
    minlen |-> IF "integer" \notin DOMAIN tc THEN "skip"
               ELSE IF Pred(tc["integer"], "one") /\ "override-minimum" \in c.kw THEN "accept" ELSE "reject"]
-ClassBeh(c, tc) == [types |-> TcBeh(tc), kw |-> c.kw, idkw |-> c.idkw, cs |-> CheckSchemaBeh(c, tc)]
+\* which draft's keyword table the class carries (c.vt \in {3, 4, 6, 7}; inherited by extend and create): Draft 3's
+\* table honours divisibleBy, Drafts 6/7 honour const
+ClassBeh(c, tc) == [types |-> TcBeh(tc), kw |-> c.kw, idkw |-> c.idkw, cs |-> CheckSchemaBeh(c, tc),
+                    flavour |-> [divisibleBy |-> c.vt = 3, const |-> c.vt >= 6]]
 FcBeh(f) == f                                     \* format name -> function id (unknown names pass)
 
 Beh == [tc |-> [t \in DOMAIN tcs |-> TcBeh(tcs[t])],
